@@ -1,0 +1,15 @@
+//go:build verif
+
+package kprapi
+
+import "net/http"
+
+// VerifRouter returns the complete HTTP handler exactly as Start serves it.
+func (srv *Server) VerifRouter() http.Handler {
+	return srv.setupRouter()
+}
+
+// VerifShutdownSig exposes the channel the shutdown operation signals on.
+func (srv *Server) VerifShutdownSig() chan struct{} {
+	return srv.shutdownSig
+}
